@@ -753,27 +753,37 @@ class VaultOracle(Oracle):
             a = rd[0]
             if a.position != pv["nft"]:
                 sim.violate("c14.liquidation", f"{where}:reduce_debt:wrong_position", vault=vid)
+            detail = dict(vault=vid, lp_eth=_f(eth_r), lp_osqth=_f(osq_r), short_before=_f(short), eth_collateral=pv["coll"])
+            for name, got, want, scale in (("withdrawn_eth_amount", a.withdrawn_eth_amount, eth_r, s0),
+                                           ("withdrawn_osqth_amount", a.withdrawn_osqth_amount, osq_r, s1)):
+                if not _close(got, want, LP_TOL, scale):
+                    sim.violate("c14.liquidation", f"{where}:reduce_debt:{name}", got=got, want=_f(want), **detail)
+                    return None  # everything after it is computed from the redeemed amounts; no consequential classes
             chk = [
-                ("withdrawn_eth_amount", a.withdrawn_eth_amount, eth_r, LP_TOL, s0),
-                ("withdrawn_osqth_amount", a.withdrawn_osqth_amount, osq_r, LP_TOL, s1),
                 ("burn_amount", a.burn_amount, m1["burn"], LP_TOL, s1),
                 ("excess", a.excess, m1["excess"], LP_TOL, s1),
                 ("short_amount_after", a.short_amount_after, m1["short"], LP_TOL, max(s1, short)),
             ]
             bounty_payable = m1["bounty"] <= m1["collateral_gross"] * (1 - BAND)
+            bad = False
             if bounty_payable:
                 chk.append(("bounty", a.bounty, m1["bounty"], BAND, m1["bounty"]))
                 chk.append(("collateral_after", a.collateral_after, m1["collateral"], BAND, max(m1["collateral_gross"], m1["bounty"])))
             else:
                 sim.count("probe:reduce_debt_bounty_exceeds_vault_collateral")
                 if F(a.bounty) > m1["bounty"] * (1 + BAND):
-                    sim.violate("c14.liquidation", f"{where}:reduce_debt:bounty_above_2pct", vault=vid, got=a.bounty, want=_f(m1["bounty"]))
+                    bad = True
+                    sim.violate("c14.liquidation", f"{where}:reduce_debt:bounty_above_2pct", got=a.bounty, want=_f(m1["bounty"]), **detail)
                 if F(a.collateral_after) < 0:
-                    sim.violate("c14.nonneg", f"{where}:reduce_debt:collateral_amount_negative", vault=vid, collateral_after=a.collateral_after,
-                                bounty=a.bounty, lp_eth=_f(eth_r), lp_osqth=_f(osq_r), eth_collateral=pv["coll"])
+                    bad = True
+                    sim.violate("c14.nonneg", f"{where}:reduce_debt:collateral_amount_negative", collateral_after=a.collateral_after,
+                                bounty=a.bounty, **detail)
             for name, got, want, tol, scale in chk:
                 if not _close(got, want, tol, scale):
-                    sim.violate("c14.liquidation", f"{where}:reduce_debt:{name}", vault=vid, got=got, want=_f(want))
+                    bad = True
+                    sim.violate("c14.liquidation", f"{where}:reduce_debt:{name}", got=got, want=_f(want), **detail)
+            if bad:
+                return None  # the later steps start from a different state; do not report consequences as new classes
             if qv["nft"] is not None:
                 sim.violate("c14.liquidation", f"{where}:reduce_debt:lp_still_in_vault", vault=vid)
             pp = post["positions"].get(pv["nft"])
